@@ -27,6 +27,8 @@ pub struct LineScn {
 	pub async_from_start: Vec<usize>,
 	pub max_disconnects: u32,
 	pub on_chain: bool,
+	/// nodes whose user is slow: events stay unhandled until the very end
+	pub slow_user: Vec<usize>,
 }
 
 pub fn build(s: &LineScn, which: &str) -> WorldSys {
@@ -46,11 +48,17 @@ pub fn build(s: &LineScn, which: &str) -> WorldSys {
 	for i in s.async_from_start.iter() {
 		sys.async_on[*i] = true;
 	}
+	for i in s.slow_user.iter() {
+		sys.held_events[*i] = true;
+		sys.events_held_through_settle = true;
+	}
 	if s.crash_nodes.is_empty() {
 		sys.oracles.push(Box::new(NoErrorOracle { allow_coop: false, allow_force_by_user: s.on_chain }));
 		sys.oracles.push(Box::new(PaymentsResolveOracle));
 	} else {
-		sys.oracles.push(Box::new(CrashOracle::new(infos.clone())));
+		let mut co = CrashOracle::new(infos.clone());
+		co.user_close = s.ops.iter().any(|o| matches!(o, Op::ForceClose { .. }));
+		sys.oracles.push(Box::new(co));
 	}
 	if which == "C02" {
 		if let Some(f) = fwd {
@@ -91,6 +99,7 @@ pub fn scenarios(tier: Tier, which: &str) -> Vec<LineScn> {
 				async_from_start: vec![],
 				max_disconnects: 0,
 				on_chain: false,
+				slow_user: vec![],
 			});
 			// either link disconnected anywhere
 			v.push(LineScn {
@@ -105,6 +114,7 @@ pub fn scenarios(tier: Tier, which: &str) -> Vec<LineScn> {
 				async_from_start: vec![],
 				max_disconnects: if th { 2 } else { 1 },
 				on_chain: false,
+				slow_user: vec![],
 			});
 			// forwarder's monitor writes asynchronous, every completion order
 			v.push(LineScn {
@@ -119,6 +129,7 @@ pub fn scenarios(tier: Tier, which: &str) -> Vec<LineScn> {
 				async_from_start: vec![1],
 				max_disconnects: 0,
 				on_chain: false,
+				slow_user: vec![],
 			});
 			// forwarder (C02) / sender (C03) crashes at every point
 			if ct == Ct::Static {
@@ -134,6 +145,7 @@ pub fn scenarios(tier: Tier, which: &str) -> Vec<LineScn> {
 					async_from_start: vec![],
 					max_disconnects: 0,
 					on_chain: true,
+					slow_user: vec![],
 				});
 			}
 		}
@@ -154,6 +166,7 @@ pub fn scenarios(tier: Tier, which: &str) -> Vec<LineScn> {
 			async_from_start: vec![1],
 			max_disconnects: 0,
 			on_chain: false,
+			slow_user: vec![],
 		});
 		// two forwards sharing both channels, one claimed one failed
 		v.push(LineScn {
@@ -168,7 +181,40 @@ pub fn scenarios(tier: Tier, which: &str) -> Vec<LineScn> {
 			async_from_start: vec![],
 			max_disconnects: 0,
 			on_chain: false,
+			slow_user: vec![],
 		});
+		if which == "C03" && ct == Ct::Static {
+			// the recipient fails the payment, its last revoke_and_ack is delayed indefinitely (held link),
+			// the sender closes on chain and may crash inside any block connection of the resolution
+			v.push(LineScn {
+				name: format!("{}-ab-fail-heldlink-forceclose-crash", n),
+				ct,
+				nodes: 2,
+				ops: vec![
+					Op::Send { from: 0, hops: vec![(1, 0)], amount_msat: 50_000_000, policy: ClaimPolicy::Fail },
+					Op::ForceClose { node: 0, chan: 0 },
+				],
+				ops_first: false,
+				dev: Deviations {
+					reorder: None,
+					early_op: None,
+					hold_link: Some(1),
+					hold_manager: Some(1),
+					crash_inside: Some(1),
+					early_release: None,
+					// quick: the recipient->sender link only, crashes inside block connections only
+					hold_link_only: if th { None } else { Some((1, 0)) },
+					crash_inside_settle_only: !th,
+					..Deviations::default()
+				},
+				k: 3,
+				crash_nodes: vec![0],
+				async_from_start: vec![],
+				max_disconnects: 0,
+				on_chain: true,
+				slow_user: vec![0],
+			});
+		}
 		if which == "C03" {
 			// direct payments with mixed outcomes
 			v.push(LineScn {
@@ -186,6 +232,7 @@ pub fn scenarios(tier: Tier, which: &str) -> Vec<LineScn> {
 				async_from_start: vec![],
 				max_disconnects: 1,
 				on_chain: false,
+				slow_user: vec![],
 			});
 		}
 	}
